@@ -727,6 +727,7 @@ func lockMethod(c *Ctx, lt lockedType, fn *ssa.Function, entry string, calls map
 	// A0: addresses of guarded fields; A1: reference values loaded from them
 	guardedAddr := map[ssa.Value]string{}
 	guardedRef := map[ssa.Value]string{}
+	roAddr := map[ssa.Value]string{}
 	isMutexAddr := func(v ssa.Value) bool {
 		if fa, ok := v.(*ssa.FieldAddr); ok && fa.X == ssa.Value(recv) && ir.FieldName(fa.X.Type(), fa.Field) == lt.mfield {
 			return true
@@ -742,7 +743,34 @@ func lockMethod(c *Ctx, lt lockedType, fn *ssa.Function, entry string, calls map
 		for _, ins := range b.Instrs {
 			if fa, ok := ins.(*ssa.FieldAddr); ok && fa.X == ssa.Value(recv) {
 				if f := ir.FieldName(fa.X.Type(), fa.Field); f != lt.mfield {
-					guardedAddr[fa] = f
+					if lockReadOnlyField(c, lt, f) {
+						roAddr[fa] = f // set by constructors only: immutable once the value is shared, needs no lock
+					} else {
+						guardedAddr[fa] = f
+					}
+				}
+			}
+		}
+	}
+	// addresses inside a guarded field (cp.stats.Loads, &arr[i]) are guarded too
+	for changed := true; changed; {
+		changed = false
+		for _, b := range fn.Blocks {
+			for _, ins := range b.Instrs {
+				var base ssa.Value
+				switch x := ins.(type) {
+				case *ssa.FieldAddr:
+					base = x.X
+				case *ssa.IndexAddr:
+					base = x.X
+				}
+				if base == nil {
+					continue
+				}
+				v := ins.(ssa.Value)
+				if f, ok := guardedAddr[base]; ok && guardedAddr[v] == "" {
+					guardedAddr[v] = f
+					changed = true
 				}
 			}
 		}
@@ -864,8 +892,22 @@ func lockMethod(c *Ctx, lt lockedType, fn *ssa.Function, entry string, calls map
 				}
 			}
 		}
+		// a call delegated to another store/cache held in a read-only interface field must not
+		// run with the mutex held: it serialises all traffic through the wrapper and deadlocks
+		// when the inner store calls back
+		if ci, ok := ins.(ssa.CallInstruction); ok && ci.Common().IsInvoke() && held != "" {
+			if ld, isLd := ci.Common().Value.(*ssa.UnOp); isLd && ld.Op == token.MUL {
+				if f, isRO := roAddr[ld.X]; isRO {
+					misuses = append(misuses, misuse{lt.mfield + " held across " + f + "." + ci.Common().Method.Name(),
+						tname + "." + lt.mfield + " is held while the call is delegated to the wrapped " + f + ": independent trees using the wrapper are serialised (and a store that calls back into the wrapper deadlocks)", P.InstrPos(ins), st.pathString()})
+				}
+			}
+		}
 		if _, isFA := ins.(*ssa.FieldAddr); isFA {
 			return
+		}
+		if ia, isIA := ins.(*ssa.IndexAddr); isIA && guardedAddr[ia] != "" && guardedAddr[ia.X] != "" {
+			return // address computation inside a guarded array field; the access is the load/store through it
 		}
 		if _, isDbg := ins.(*ssa.DebugRef); isDbg {
 			return
@@ -1010,4 +1052,69 @@ func implementsStorageIface(P *ir.Program, named *types.Named) bool {
 		}
 	}
 	return false
+}
+
+// lockReadOnlyField: field f of the guarded type is assigned only while the
+// value is being constructed (stores into a freshly allocated value outside
+// the type's methods) and its type carries no mutable state of its own that
+// the methods could change through it (interface, string, number, bool,
+// func): such a field is immutable once the value is shared, so reading it
+// needs no lock.
+func lockReadOnlyField(c *Ctx, lt lockedType, f string) bool {
+	var ft types.Type
+	for i := 0; i < lt.st.NumFields(); i++ {
+		if lt.st.Field(i).Name() == f {
+			ft = lt.st.Field(i).Type()
+		}
+	}
+	if ft == nil {
+		return false
+	}
+	switch ft.Underlying().(type) {
+	case *types.Interface, *types.Basic, *types.Signature:
+	default:
+		return false
+	}
+	for _, fn := range c.P.Funcs {
+		if fn.Pkg.Pkg.Path() != lt.pkg {
+			continue
+		}
+		for _, b := range fn.Blocks {
+			for _, ins := range b.Instrs {
+				switch x := ins.(type) {
+				case *ssa.Store:
+					// whole-value store into a shared T
+					if pt, ok := x.Addr.Type().Underlying().(*types.Pointer); ok && types.Identical(pt.Elem(), lt.named) {
+						if _, fresh := x.Addr.(*ssa.Alloc); !fresh {
+							return false
+						}
+					}
+					fa, ok := x.Addr.(*ssa.FieldAddr)
+					if !ok || !lt.isPtrTo(fa.X.Type()) || ir.FieldName(fa.X.Type(), fa.Field) != f {
+						continue
+					}
+					if _, fresh := fa.X.(*ssa.Alloc); !fresh || fn.Signature.Recv() != nil {
+						return false
+					}
+				case *ssa.FieldAddr:
+					// the field's address must not escape (only loads and constructor stores)
+					if !lt.isPtrTo(x.X.Type()) || ir.FieldName(x.X.Type(), x.Field) != f || x.Referrers() == nil {
+						continue
+					}
+					for _, r := range *x.Referrers() {
+						switch y := r.(type) {
+						case *ssa.UnOp, *ssa.DebugRef:
+						case *ssa.Store:
+							if y.Addr != ssa.Value(x) {
+								return false
+							}
+						default:
+							return false
+						}
+					}
+				}
+			}
+		}
+	}
+	return true
 }
